@@ -795,4 +795,79 @@ pub fn run(out: &mut Out, rng: &mut Rng, seed: u64, count: usize) {
             rebin
         ));
     }
+    // large values (encodings of 60 KiB .. a few MiB, around 64 KiB): implementation oracle only
+    let sizes: &[usize] = &[60_000, 65_530, 65_536, 65_600, 70_000, 200_000, 1_100_000, 3_000_000];
+    for (k, size) in sizes.iter().enumerate() {
+        for shape in 0..4 {
+            let (label, case) = match shape {
+                0 => ("Name", mk(Name::new("n".repeat(*size)))),
+                1 => (
+                    "Nested",
+                    mk(Nested {
+                        s: Plain { c: 1.5, h: -2.5, ..plain(rng) },
+                        e: En::A,
+                        v: (0..size / 11 + 1).map(|i| Tup(int_ext(rng) as u8, int_ext(rng) as i16, i as f64 / 4.0)).collect(),
+                        o: None,
+                        arr: [1, 2, 3],
+                        t: (0, string(rng)),
+                        vv: vec![],
+                        oe: None,
+                        os: None,
+                    }),
+                ),
+                2 => (
+                    "Nested",
+                    mk(Nested {
+                        s: Plain { c: 1.5, h: -2.5, ..plain(rng) },
+                        e: En::A,
+                        v: vec![],
+                        o: None,
+                        arr: [1, 2, 3],
+                        t: (0, string(rng)),
+                        vv: vec![rng.bytes(*size), rng.bytes(3)],
+                        oe: None,
+                        os: Some("tail".into()),
+                    }),
+                ),
+                _ => {
+                    let mut m = BTreeMap::new();
+                    // bevy_reflect's map handling is quadratic in the entry count (125 000 entries: 220 s): capped
+                    for i in 0..(*size).min(200_000) / 24 + 1 {
+                        m.insert(format!("key-{:012}", i), i as i32);
+                    }
+                    ("WithMap", mk(WithMap { m, n: BTreeMap::new() }))
+                }
+            };
+            let id = format!("reflect-{}-large{}-{}", seed, k, shape);
+            let t0 = std::time::Instant::now();
+            let _g = Timer(id.clone(), t0);
+            let v = case.value.as_ref();
+            out.stat("reflect.large_oracle_only");
+            let bin = match verif::reflect_to_bin(v, &reg) {
+                Ok(b) => b,
+                Err(e) => {
+                    out.oracle_fail("reflect", &id, &format!("reflect_to_bin failed for a {} of about {} bytes: {}", label, size, e));
+                    continue;
+                }
+            };
+            let bin2 = bin.clone();
+            let reg_ref = &reg;
+            match catch(std::panic::AssertUnwindSafe(move || verif::bin_to_reflect(&bin2, reg_ref))) {
+                Err(p) => out.oracle_fail("reflect", &id, &format!("bin_to_reflect panicked for a {} of {} encoded bytes: {}", label, bin.len(), p)),
+                Ok(None) => out.oracle_fail("reflect", &id, &format!("bin_to_reflect rejected reflect_to_bin output for a {} of {} encoded bytes", label, bin.len())),
+                Ok(Some(d)) => {
+                    if (case.rebuild_eq)(d.as_ref()) != Some(true) {
+                        out.oracle_fail("reflect", &id, &format!("decoded {} of {} encoded bytes is not the value encoded", label, bin.len()));
+                    }
+                    match verif::reflect_to_bin(d.as_ref(), &reg) {
+                        Ok(b) if b == bin => {}
+                        _ => out.oracle_fail("reflect", &id, &format!("re-encoding differs for a {} of {} encoded bytes", label, bin.len())),
+                    }
+                }
+            }
+        }
+    }
 }
+
+struct Timer(String, std::time::Instant);
+impl Drop for Timer { fn drop(&mut self) { if std::env::var("VERIF_TIMING").is_ok() { eprintln!("{} {:?}", self.0, self.1.elapsed()); } } }
